@@ -25,6 +25,39 @@ def expected(blocks, advance):
     return out
 
 
+def align_ties(exp, blocks, got):
+    """Brothers are handed over in ascending order of block hash; among brothers of EQUAL hash no order is
+    prescribed. Put each such group of the expectation in the order observed (where the observation matches a
+    member at all), so that only what is prescribed is judged."""
+    for j, b in enumerate(blocks):
+        if j >= len(got["blocks"]) or len(b.get("brothers", [])) < 2:
+            continue
+        hs = sorted(enc.block_hash(x["fields"]) for x in b["brothers"])
+        e, g = exp[j]["bros"], got["blocks"][j]["bros"]
+        k = 0
+        while k < len(hs):
+            m = k
+            while m + 1 < len(hs) and hs[m + 1] == hs[k]:
+                m += 1
+            if m > k:
+                pool = e[k:m + 1]
+                new = []
+                for pos in range(k, m + 1):
+                    pick = None
+                    if pos < len(g):
+                        for c in pool:
+                            if c["meta"] == g[pos]["meta"] and c["hdr"][:len(g[pos]["data"])] == g[pos]["data"]:
+                                pick = c
+                                break
+                    if pick is None:
+                        pick = pool[0]
+                    pool.remove(pick)
+                    new.append(pick)
+                e[k:m + 1] = new
+            k = m + 1
+    return exp
+
+
 def tiny_header(rng, n_fields, target_len, relayed_target=False, measure=None):
     """A syntactically valid 19/20-field header of exactly `target_len` bytes (or, with relayed_target,
     whose form without proof/coinbase fields has that length), built from small fields."""
@@ -113,6 +146,12 @@ def request_for(blocks, advance, rng=None):
             for lst in bros:
                 rng.shuffle(lst)       # the client's order is arbitrary; the device must see them sorted
         req["brothers"] = bros
+    if rng is not None and rng.random() < 0.3:
+        # the same bytes in other spellings the validators accept (letter case, blanks between bytes, ...)
+        sp = lambda h: enc.respell(h, rng) if rng.random() < 0.5 else h    # noqa: E731
+        req["blocks"] = [sp(h) for h in req["blocks"]]
+        if advance:
+            req["brothers"] = [[sp(h) for h in lst] for lst in req["brothers"]]
     return req
 
 
@@ -205,7 +244,8 @@ class Bench:
                     "meta": list(blk["meta"]), "data": list(blk["data"]), "asked": bool(blk.get("asked_bros")),
                     "brocount": list(blk.get("bro_list_raw", b"")),
                     "bros": [{"meta": list(x["meta"]), "data": list(x["data"])} for x in blk["bros"]]})
-        t = {"advance": advance, "count": list(struct.pack(">I", len(blocks))), "blocks": expected(blocks, advance),
+        t = {"advance": advance, "count": list(struct.pack(">I", len(blocks))),
+             "blocks": align_ties(expected(blocks, advance), blocks, got) if advance else expected(blocks, advance),
              "got": got, "dev": dev, "code": code if has else 99, "hascode": has, "coop": bool(coop)}
         meta = {"code": code, "apdus": len([e for e in self.world.log if e["ev"] == "apdu"]),
                 "shutdown": o.shutdown, "n_blocks": len(blocks)}
